@@ -543,3 +543,33 @@ func VH_c02_future_apply_panics() {
 		}
 	}
 }
+
+// The panic value can itself be a captured panic: Get() on a Failure made from an earlier panic re-panics with that
+// error. The new Failure exposes the value this function panicked with (that error), not the cause of the earlier
+// panic.
+func VH_c02_future_apply_rethrown_captured_panic() {
+	pv := zz.Int("panicvalue")
+	var first fp.Try[int]
+	if zz.Bool("first.from.try.Of") {
+		first = try.Of(func() int { panic(pv) })
+	} else {
+		f0 := future.Apply(func() int { panic(pv) }, inline{})
+		zz.Quiesce()
+		first = f0.Value()
+	}
+	zz.Assert(first.IsFailure(), "the first panic is captured")
+	e1 := first.Failed().Get()
+	var f fp.Future[int]
+	if zz.Bool("apply2") {
+		f = future.Apply2(func() (int, error) { return first.Get(), nil }, inline{})
+	} else {
+		f = future.Apply(func() int { return first.Get() }, inline{})
+	}
+	zz.Quiesce()
+	r := f.Value()
+	p, ok := r.Failed().Get().(panicker)
+	zz.Assert(r.IsFailure() && ok, "a re-thrown captured panic becomes a Failure")
+	if ok {
+		zz.Assert(p.Panic() == any(e1), "future.Apply/Apply2: the Failure exposes the value the function panicked with (the captured error), not an earlier panic's cause")
+	}
+}
